@@ -57,8 +57,8 @@ type c16Lit struct {
 	term string // Gallina literal
 }
 
-func litInt(v *big.Int) c16Lit  { return c16Lit{v.String(), emit.App("LInt", emit.ZBig(v))} }
-func litStr(s string) c16Lit    { return c16Lit{"'" + s + "'", emit.App("LStr", emit.Str(s))} }
+func litInt(v *big.Int) c16Lit { return c16Lit{v.String(), emit.App("LInt", emit.ZBig(v))} }
+func litStr(s string) c16Lit   { return c16Lit{"'" + s + "'", emit.App("LStr", emit.Str(s))} }
 func litDecText(s string) c16Lit { // digits '.' digits
 	dot := strings.IndexByte(s, '.')
 	n, _ := new(big.Int).SetString(s[:dot]+s[dot+1:], 10)
